@@ -126,8 +126,8 @@ def mesh_literal(s, r):
                          f"(Some ({g_s(t[0])}, {gz(t[1])}, {gz(t[2])}, {g_opt(t[3], gz)}, {g_opt(t[4], gz)}))")
         obs = "(Ok [" + "; ".join(items) + "])"
     data_on = []
-    for loc in ("node", "edge", "face"):
-        data_on.append(loc in s.get("locs", []) and (loc == "node" or loc in files))
+    for loc, dim in (("node", "nNodes"), ("edge", "nEdges"), ("face", "nFaces")):
+        data_on.append(dim if loc in s.get("locs", []) and (loc == "node" or loc in files) else None)
     intent = []
     for loc in ("node", "edge", "face"):
         src = ("edge" if "edge" in files else "face" if "face" in files else None) if loc == "node" else (loc if loc in files else None)
@@ -138,7 +138,7 @@ def mesh_literal(s, r):
         if loc == "face" and "ff" in files:
             ccf = f"(Some ({gbool(files['ff'][2])}, {gz(files['ff'][1])}))"
         intent.append(f"(Some (({gbool(files[src][2])}, {gz(files[src][1])}), {ccf}))")
-    return f"({mesh_meta(s)}, {glist(data_on, gbool)}, {obs}, [{'; '.join(intent)}])"
+    return f"({mesh_meta(s)}, {glist(data_on, lambda d: g_opt(d, g_s))}, {obs}, [{'; '.join(intent)}])"
 
 
 # ---------------------------------------------------------------- mesh derivations (generator side)
@@ -628,6 +628,22 @@ CORPUS = [
     {"fam": "corpus-F15d", "n_nodes": 5, "faces": [[0, 1, 2], [2, 1, 3, 4]], "edges": None, "si": {"face": 0, "edge": 0, "ff": 0},
      "si_attr": True, "tr": {"face": True, "edge": False, "ff": False}, "dtype": "i8", "fill": -1, "pad": 1,
      "coords": [[0, 1, 2, 3, 4], [0, 10, 20, 30, 40]], "locs": ["node", "face"], "valid": True},
+    # metadata decisions (seed-robustness pass): face_face_connectivity on a foreign dimension (the reader before
+    # C15-fix3-1 raises when attaching the construct, the repaired one reports and drops it) ...
+    {"fam": "corpus-ff-other-dimension", "n_nodes": 5, "faces": [[0, 1, 2], [2, 1, 3, 4]], "edges": [[0, 1], [1, 2], [2, 0], [1, 3], [3, 4], [4, 2]],
+     "face_face": [[1], [0]], "si": {"face": 0, "edge": 1, "ff": 0}, "si_attr": False, "tr": {"face": False, "edge": False, "ff": False},
+     "dtype": "i4", "fill": -99, "pad": 0, "coords": [[0, 1, 2, 3, 4], [0, 10, 20, 30, 40]], "locs": ["node", "edge", "face"],
+     "valid": False, "malformed": "ff-other-dimension", "raw": {"ff_other_dim": True}, "mesh2": False},
+    # ... and a face_dimension attribute naming the node-count dimension of face_node_connectivity: the face data
+    # variable does not span it, the mesh is reported and ignored for it (27c43f0), nodes and edges keep their constructs
+    {"fam": "corpus-foreign-face-dimension", "n_nodes": 5, "faces": [[0, 1, 2], [2, 1, 3, 4]], "edges": [[0, 1], [1, 2], [2, 0], [1, 3], [3, 4], [4, 2]],
+     "si": {"face": 1, "edge": 1, "ff": 1}, "si_attr": True, "tr": {"face": False, "edge": False, "ff": False},
+     "dtype": "i4", "fill": -99, "pad": 0, "coords": [[0, 1, 2, 3, 4], [0, 10, 20, 30, 40]], "locs": ["node", "edge", "face"],
+     "valid": False, "malformed": "foreign-face-dimension", "raw": {"face_dimension": "nMaxFaceNodes"}, "mesh2": False},
+    {"fam": "corpus-foreign-face-dimension", "n_nodes": 5, "faces": [[0, 1, 2], [2, 1, 3, 4]], "edges": None,
+     "si": {"face": 0, "edge": 0, "ff": 0}, "si_attr": True, "tr": {"face": False, "edge": False, "ff": False},
+     "dtype": "i4", "fill": -99, "pad": 0, "coords": [[0, 1, 2, 3, 4], [0, 10, 20, 30, 40]], "locs": ["node", "face"],
+     "valid": False, "malformed": "foreign-face-dimension", "raw": {"face_dimension": "nMaxFaceNodes"}, "mesh2": False},
 ]
 
 
@@ -822,6 +838,11 @@ def literals(s, r):
     files = file_arrays(s)
     field = r.get("field") or {}
     if "read_err" in field:
+        return out
+    if (s.get("raw") or {}).get("face_dimension"):
+        # a face_dimension attribute that contradicts the storage order the generator chose: which
+        # order the reader takes is the subject of the "mesh" correspondence (Mesh.cell_dimension);
+        # the array models below are given the generator's intended order, which is undefined here
         return out
     n = s["n_nodes"]
     for loc in ("edge", "face"):
